@@ -1196,6 +1196,23 @@ impl<'ast, 'res> Resolver<'ast, 'res> {
                         } else {
                             class = class.join(ExprClass::Impure);
                         }
+                        // Unless the receiver's type is known and has this method, the call can
+                        // end in a runtime type mismatch, so it is not trap-free.
+                        let receiver_has_method = match self.infer_expr_type(object) {
+                            Some(ValueType::String) => StringBuiltin::from_name(field).is_some(),
+                            Some(ValueType::Array) => ArrayBuiltin::from_name(field).is_some(),
+                            Some(ValueType::Number) => NumberBuiltin::from_name(field).is_some(),
+                            Some(ValueType::ProcessCommand) => {
+                                ProcessCommandBuiltin::from_name(field).is_some()
+                            }
+                            Some(ValueType::ProcessResult) => {
+                                ProcessResultBuiltin::from_name(field).is_some()
+                            }
+                            _ => false,
+                        };
+                        if !receiver_has_method {
+                            class = class.join(ExprClass::PureMayTrap);
+                        }
                     }
                     _ => class = class.join(ExprClass::Impure),
                 }
